@@ -451,6 +451,8 @@ class SymEnv:
     def check(self, cond, key, info=None):
         """Assertion: must hold for every value of the remaining symbols."""
         self.stats.checks += 1
+        if type(cond).__name__ in ('bool_', 'bool'):
+            cond = bool(cond)
         if isinstance(cond, bool):
             if cond:
                 self.stats.checks_unsat += 1
